@@ -336,6 +336,7 @@ def _signapp_operations(run, PV):
     SV_NEW = _strip("SignerVersion(compute_app_hash(options.app_path).hex(), options.iteration)")
     SA_OF = {SV_FILE: _strip("SignerAuthorization.from_jsonfile(options.output_path)"), SV_NEW: _strip(f"SignerAuthorization.for_signer_version({SV_NEW})")}
     n_done = 0
+    done_per_op = {}
     for op in ("key", "eth", "manual", "hash"):
         def atom(e, op=op):
             e = fold_consts(P, e, mn, None, locals_=locs)
@@ -353,6 +354,7 @@ def _signapp_operations(run, PV):
             calls = [(st_, v_) for k_, st_, v_ in lf.effects if k_ == "expr" and isinstance(v_, ast.Call)]
             if lf.kind != "dead" or not calls or _strip(norm(calls[-1][1])) != "sys.exit(0)":
                 continue
+            done_per_op[op] = done_per_op.get(op, 0) + (0 if (op == "eth" and lf.pc.get("?options.pubkey") is True) else 1)
             work = [(st_, v_) for st_, v_ in calls if call_name(v_) not in ("info", "head", "exit", "disable", "add_argument")]
             where = mn.loc(calls[-1][0])
             pcs = {k[1:]: b for k, b in lf.pc.items() if isinstance(k, str) and k.startswith("?")}
@@ -419,4 +421,7 @@ def _signapp_operations(run, PV):
                 run.check("R5", okv, "`eth`: stored only if it verifies under the dongle's key for that path", key="signapp|eth|verified", where=where,
                           message="signapp eth stores the dongle's signature without it having verified (DER) against the authorization digest under the public key the dongle "
                                   f"reported for the same path (conditions on the path: {[k[:60] for k, b in pcs.items() if 'verify' in k]})")
+    for op in ("key", "eth", "manual", "hash"):
+        run.check("R5", done_per_op.get(op, 0) >= 1, f"`{op}` can be carried out", key=f"signapp|{op}|completes", where=mn.loc(),
+                  message=f"with operation `{op}` no run of signapp's main() ends in exit 0: the operation can no longer be carried out")
     run.floor("R5", "completed runs of signapp examined", n_done, 8)
